@@ -688,11 +688,13 @@ func genArgv(r *rand.Rand, t *Tree, sc *Scenario) {
 				}
 			} else {
 				if wantValid || chance(r, 0.7) {
-					if !earlyDD && chance(r, 0.06) { // the terminator in front of a pending positional: its value is bound after `--`
+					pv := wantValid
+					if !earlyDD && chance(r, 0.12) { // the terminator in front of a pending positional: its value is bound after `--`
 						argv = append(argv, "--")
 						earlyDD = true
+						pv = pv && chance(r, 0.5)
 					}
-					argv = append(argv, posValue(r, a, wantValid))
+					argv = append(argv, posValue(r, a, pv))
 					npos++
 				} else {
 					break
